@@ -226,7 +226,7 @@ def read_results(path_or_str: Union[str, Path]):
             path /= 'results.json'
 
         if path.name.endswith('.xz'):
-            manager = lzma.open(path, 'r', encoding='utf-8')
+            manager = lzma.open(path, 'rt', encoding='utf-8')
         else:
             manager = open(path, 'r')
 
